@@ -67,10 +67,11 @@ def read_text(path):
         return None
 
 
-def walk(root, skip=("userdata",)):
-    """Every directory and file under root (absolute), except the users' data directories."""
+def walk(root, skip=("userdata",), followlinks=False):
+    """Every directory and file under root (absolute), except the users' data directories.  With followlinks the
+    entries below a symbolic link to a directory are listed under the link's name too."""
     out = [root]
-    for d, dirs, files in os.walk(root):
+    for d, dirs, files in os.walk(root, followlinks=followlinks):
         dirs[:] = sorted(x for x in dirs if not (d == root and x.startswith(skip)))
         for x in dirs:
             out.append(os.path.join(d, x))
